@@ -90,6 +90,11 @@ CHECKS = {
         text="A real communicator/endpoint manager/adapters resolve 2..4 endpoints (distinct loopback hosts) from a fake registrar; one scripted server per endpoint answers, stays silent or refuses per step; seeded scripts mix call batches (60 ms timeout), behaviour changes, virtual time advances and status checks, and end with a healing tail. Which server receives which token, the active list and the adapters' health records are observed; the assertions check: no removal without / with fewer than two failures, removal after >=5 consecutive failures over >=8 s while another endpoint is active, at most one probe per 27 s to a blocked endpoint, reinstatement iff the probe succeeded, calls still attempted when every endpoint is blocked, and return of every healed endpoint.",
         note="Virtual time shifts lastSuccessTime/lastBlockTime/lastCheckTime (all health comparisons have the form now - stamp >= K) and adds the real seconds elapsed; 3 s margins around the thresholds. The automatic ticker is set to 1 h through the first application's client configuration.",
         design="DESIGN.md §4 C15"),
+    "C01": dict(
+        technique="runtime monitor: token-joined event log across generated proxy, frame tap, real server stack and recording servant; reflection-driven calls with model-value equality oracles",
+        text="Per filter configuration a fresh isolated application runs the real stack (generated proxy -> ServantProxy -> transport client -> frame-parsing, re-chunking tap -> TarsServer -> tars.Protocol -> generated dispatcher -> recording servant) for an interface compiled at check time by the tree's own tars2go (12 functions over every type category, out-before-in, void, many outs). 1/4/32 callers share one proxy; each call draws function, argument values, request context/status maps, a directive for the servant (values, response context/status, tars.Error or plain error) and the proxy form (plain, WithContext, OneWay). Joined by token: executed exactly once, arguments/context/status received == sent, returned values/maps == directive, error code/message == directive, one-way never answered on the wire, pass-through filters seen once in registration order per side and properly nested.",
+        note="The IDL is one hand-written interface (plus the generated-IDL corpus of C16). UDP/TLS transports are outside the statement. Error code 0 / empty messages excluded by design.",
+        design="DESIGN.md §4 C01"),
 }
 
 NOT_BUILT_REASON = "check not built yet in this session (runtime-monitoring design exists in DESIGN.md §4; machinery in progress) — not claimed until its monitor runs silent on the unchanged tree"
